@@ -33,11 +33,11 @@ def scale(profiles, k):
     return [(n, c * k) for n, c in profiles]
 
 
-Q01 = [("mailbox", 30000), ("backpressure", 8000), ("lifecycle", 8000), ("owning", 4000)]
-Q02 = [("mailbox", 16000), ("lifecycle", 16000), ("owning", 10000), ("backpressure", 4000), ("timeout", 6000)]
+Q01 = [("mailbox", 30000), ("backpressure", 8000), ("lifecycle", 8000), ("owning", 4000), ("burst", 3000)]
+Q02 = [("mailbox", 16000), ("lifecycle", 16000), ("owning", 10000), ("backpressure", 4000), ("timeout", 6000), ("restart", 6000), ("faults+faults", 250), ("lifecycle+faults", 250)]
 Q03 = [("lifecycle", 24000), ("owning", 8000), ("handles", 6000), ("mailbox", 4000), ("stream", 8000), ("restart", 6000), ("timeout", 6000)]
-Q04 = [("lifecycle", 30000), ("owning", 12000), ("mailbox", 6000), ("backpressure", 4000), ("timeout", 8000)]
-Q05 = [("handles", 24000), ("lifecycle", 12000), ("owning", 6000), ("mailbox", 4000), ("broker", 8000), ("stream", 6000), ("timers", 6000)]
+Q04 = [("lifecycle", 30000), ("owning", 12000), ("mailbox", 6000), ("backpressure", 4000), ("timeout", 8000), ("restart", 4000), ("faults+faults", 250), ("lifecycle+faults", 250)]
+Q05 = [("handles", 24000), ("lifecycle", 12000), ("owning", 6000), ("mailbox", 4000), ("broker", 8000), ("stream", 6000), ("timers", 6000), ("tree", 8000)]
 Q12 = [("backpressure", 30000), ("mailbox", 10000), ("lifecycle", 4000)]
 Q17 = [("owning", 30000), ("lifecycle", 10000), ("mailbox", 4000), ("timeout", 8000)]
 
@@ -58,8 +58,8 @@ PLANS = {
     "C01": plan(Q01, scale(Q01, 40),
                 ">=2 clients submitted and both the waiting and the forcing path were used",
                 ["C01.R1", "C01.R2", "C01.R3.cross_client.wait_force", "C01.R3.cross_client.force_wait",
-                 "C01.R3.same_client.wait_force", "C01.R3.same_client.force_wait", "C01.R4.fold", "C01.R4.reply", "C01.R4.join"],
-                mt=[('mailbox', 480), ('backpressure', 160)], mt_required=['L2:C01.R1', 'L2:C01.R3.cross_client.wait_force', 'L2:C01.R4.reply']),
+                 "C01.R3.same_client.wait_force", "C01.R3.same_client.force_wait", "C01.R4.fold", "C01.R4.reply", "C01.R4.join", "C01.R5.burst_in_order", "C01.R5.burst_messages", "C01.R5.burst_count"],
+                mt=[('mailbox', 400), ('backpressure', 120), ('burst', 480)], mt_required=['L2:C01.R1', 'L2:C01.R3.cross_client.wait_force', 'L2:C01.R4.reply', 'L2:C01.R5.burst_in_order', 'L2:C01.R5.burst_count']),
     "C02": plan(Q02, scale(Q02, 40),
                 ">=2 clients issued calls through >=2 handle kinds",
                 ["C02.R1", "C02.R2", "C02.R3", "C02.R4.resolved", "C02.R5.after_end", "C02.R5.await_after_end", "C02.R5.pending_across_end"],
@@ -76,7 +76,7 @@ PLANS = {
                 mt=[('lifecycle', 400), ('owning', 240)], mt_required=['L2:C04.R2.after_stop_unhandled', 'L2:C04.R4.await_after_stopped']),
     "C05": plan(Q05, scale(Q05, 40),
                 "the last strong handle of an actor was dropped while it was running, or a weak handle was upgraded after that",
-                ["C05.R1.no_termination_while_held", "C05.R2.last_drop_terminates", "C05.R2.with_live_timers", "C05.R2.accepted_then_handled",
+                ["C05.R1.no_termination_while_held", "C05.R1.child_list_keeps_alive", "C05.R2.last_drop_terminates", "C05.R2.with_live_timers", "C05.R2.accepted_then_handled",
                  "C05.R2.exact_time", "C05.R2.quiescent_invariant", "C05.R3.upgrade_after_last_drop", "C05.R3.monotone"],
                 mt=[('handles', 480)], mt_required=['L2:C05.R3.upgrade_after_last_drop']),
     "C12": plan(Q12, scale(Q12, 40),
